@@ -177,6 +177,8 @@ type SeqResult struct {
 	Op    string   `json:"op"`
 	Canon string   `json:"canon"`
 	Got   string   `json:"got"`
+	// ExamplesOnly: both are JSON documents that differ only inside "example" strings
+	ExamplesOnly bool `json:"examplesOnly,omitempty"`
 }
 
 type ConcResult struct {
